@@ -21,7 +21,9 @@ import struct
 
 from ..finite import Interp
 from ..model import AnalysisError, src, walk_no_nested
+from ..sval import NONE, const, norm_pc, same, strip_ids, subterms
 from ..terms import callee_name, calls_in, compare_parts, inline, kwargs_of, single_def
+from .. import tq
 from . import common
 
 EXPLANATION = ('static analysis: field-by-field comparison of the decoder\'s and encoder\'s struct layouts with a table '
@@ -57,64 +59,96 @@ def layout(fmt, A=None):
     return out, off
 
 
-def fmt_text(e):
-    if isinstance(e, ast.Constant) and isinstance(e.value, str):
-        return e.value
-    if isinstance(e, ast.Call) and isinstance(e.func, ast.Attribute) and e.func.attr == 'format' \
-            and isinstance(e.func.value, ast.Constant):
-        return e.func.value.value
+def fmt_of(t):
+    """format text of the first argument of a struct call term: constant, or 'x'.format(...) with `{}` placeholders"""
+    if t[0] == 'const' and isinstance(t[2], str):
+        return t[2]
+    if tq.is_call(t, 'method.format') and t[2][0] == 'const' and isinstance(t[2][2], str):
+        return t[2][2]
     return None
 
 
-def unpacks(fi):
-    """[(format text, [target names], offset expr or None, call)] in source order"""
-    out = []
-    for n in walk_no_nested(fi.node):
-        if isinstance(n, ast.Assign) and isinstance(n.value, ast.Call) and callee_name(n.value) == 'unpack_from':
-            c = n.value
-            t = n.targets[0]
-            names = [src(x) for x in t.elts] if isinstance(t, ast.Tuple) else [src(t) + '[*]']
-            out.append((fmt_text(c.args[0]), names, c.args[2] if len(c.args) > 2 else None, c, n))
-    out.sort(key=lambda x: (x[3].lineno, x[3].col_offset))
-    return out
+def unpack_calls(sv):
+    """CallRecs of struct.unpack_from / struct.unpack in evaluation order"""
+    return [c for c in sv.calls if c.callee in ('struct.unpack_from', 'struct.unpack')]
 
 
-def packs(fi):
-    out = [c for c in calls_in(fi.node) if callee_name(c) == 'pack']
-    out.sort(key=lambda c: (c.lineno, c.col_offset))
-    return out
+def upos(c):
+    """(format text, buffer term, offset term or None) of an unpack CallRec / call term"""
+    a = list((c.args if hasattr(c, 'args') else tq.args(c)).values())
+    return (fmt_of(a[0]) if a else None, a[1] if len(a) > 1 else None, a[2] if len(a) > 2 else None)
 
 
-def attr_of_param(init, param):
-    """attribute of self that __init__ fills from `param` (possibly through an enum constructor)"""
-    for n in walk_no_nested(init.node):
-        if isinstance(n, ast.Assign) and isinstance(n.targets[0], ast.Attribute) and src(n.targets[0].value) == 'self':
-            if any(isinstance(x, ast.Name) and x.id == param for x in ast.walk(n.value)):
-                return n.targets[0].attr
-    return None
-
-
-def flows_to_attr(ctx, cls, fi, name):
-    """attribute(s) of the constructed object that receive local `name` of the parse function"""
+def indices_in(t, U):
+    """set of constant indices i such that U[i] occurs in term t"""
+    U = strip_ids(U)
     out = set()
-    for r in walk_no_nested(fi.node):
-        if not (isinstance(r, ast.Return) and isinstance(r.value, ast.Call)):
-            continue
-        c = r.value
-        cn = callee_name(c)
-        target_cls = cls if cn in ('cls', cls.name) else ctx.prog.resolve_class_expr(c.func, fi.module, fi.cls)
-        if target_cls is None:
-            continue
-        init = target_cls.lookup('__init__')
-        if init is None:
-            continue
-        b = kwargs_of(c, target=init)
-        for p, a in b.items():
-            if any(isinstance(x, ast.Name) and x.id == name for x in ast.walk(a)):
-                at = attr_of_param(init, p)
-                if at:
-                    out.add(at)
+    for x in subterms(strip_ids(t)):
+        if isinstance(x, tuple) and len(x) == 3 and x[0] == 'index' and x[1] == U and x[2][0] == 'const':
+            out.add(x[2][2])
     return out
+
+
+def all_terms(sv):
+    """every value term the function computes (returns, raises, call arguments, stored values, conditions)"""
+    out = [t for _, t, _ in sv.returns] + [t for _, t, _ in sv.raises] + [c.term for c in sv.calls] + [v for _, v, _, _, _ in sv.stores]
+    for pc, _, _ in sv.returns + sv.raises:
+        out.extend(a[0] for a in pc)
+    for c in sv.calls:
+        out.extend(a[0] for a in c.pc)
+    # the update of a loop-carried variable counts when that variable is read somewhere (a cursor), not when it is only bound
+    read = set()
+    for t in out:
+        for x in subterms(t):
+            if isinstance(x, tuple) and len(x) == 3 and x[0] == 'acc':
+                read.add(x[1])
+    for ups in sv.loop_updates.values():
+        out.extend(v for k, v in ups.items() if k in read)
+    return out
+
+
+def attr_params(ctx, cls):
+    """attribute of self -> constructor parameter that feeds it (possibly through an enum constructor), along the MRO"""
+    out = {}
+    for k in reversed(cls.mro()):
+        init = k.methods.get('__init__')
+        if init is None or not isinstance(init.node, ast.FunctionDef):
+            continue
+        sv = ctx.sval(init)
+        for t, v, _, _, _ in sv.stores:
+            if t[0] == 'attr' and t[1] == ('param', 'self'):
+                ps = [x[1] for x in subterms(v) if isinstance(x, tuple) and len(x) == 2 and x[0] == 'param' and x[1] in init.call_params()]
+                if len(set(ps)) == 1:
+                    out[t[2]] = ps[0]
+                elif t[2] in ps:
+                    out[t[2]] = t[2]        # several parameters take part (an enum chosen by another field): the like-named one
+    return out
+
+
+def ctor_returns(ctx, cls, fi):
+    """[(pc, {param: term})] for every return of fi that constructs cls (or `cls(...)`)"""
+    sv = ctx.sval(fi)
+    out = []
+    for pc, t, _ in sv.returns:
+        if t[0] == 'call' and isinstance(t[1], str) and t[1].startswith('new ') and (
+                t[1] == 'new ' + cls.qual or ctx.prog.classes.get(t[1][4:]) in cls.mro() or cls in (
+                    ctx.prog.classes.get(t[1][4:]).mro() if ctx.prog.classes.get(t[1][4:]) else [])):
+            out.append((pc, tq.args(t)))
+    return out
+
+
+def first_pack(t):
+    """the struct.pack(...) call a byte-string term starts with (looking through bytearray()/bytes()), and the remaining parts"""
+    parts = list(t[1]) if t[0] == 'add' else [t]
+    head = parts[0] if parts else None
+    while head is not None and tq.is_call(head) and head[1] in ('builtins.bytearray', 'builtins.bytes') and len(head[3]) == 1:
+        head = head[3][0][1]
+    if head is not None and tq.is_call(head, 'builtins.bytearray') and not head[3]:
+        parts = parts[1:]
+        return first_pack(('add', tuple(parts))) if len(parts) > 1 else (first_pack(parts[0]) if parts else (None, []))
+    if head is not None and tq.is_call(head, 'struct.pack'):
+        return head, parts[1:]
+    return None, parts
 
 
 # structure -> (class, decode fn, index of unpack_from, encode fn, index of pack, fields)
@@ -174,29 +208,36 @@ REGISTRY = {'SA': 'PayloadSA', 'KE': 'PayloadKE', 'IDi': 'PayloadIDi', 'IDr': 'P
 
 
 def check_fixed(ctx, title, cls, dfn, di, efn, ei, fields, A=None):
-    prog = ctx.prog
     dfi, efi = cls.lookup(dfn), cls.lookup(efn)
     ctx.require(dfi is not None and efi is not None, 'anchor vanished: %s.%s/%s' % (cls.qual, dfn, efn))
-    ups, pks = unpacks(dfi), packs(efi)
-    ctx.require(len(ups) > di and len(pks) > ei, 'anchor vanished: struct calls of %s' % cls.qual)
-    fmt, names, off, call, _ = ups[di]
-    pk = pks[ei]
-    efmt = fmt_text(pk.args[0])
-    ctx.require(fmt is not None and efmt is not None, 'non-constant wire format in %s' % cls.qual)
+    D, E = ctx.sval(dfi), ctx.sval(efi)
+    dsite, esite = ctx.site(dfi, dfi.node), ctx.site(efi, efi.node)
+    dparam = ('param', dfi.call_params()[0])
+    ups = [c for c in unpack_calls(D) if upos(c)[1] == dparam and upos(c)[2] in (None, const(0))]
+    ctx.require(len(ups) >= 1, 'anchor vanished: fixed-part unpack of %s' % cls.qual)
+    U = ups[0]
+    fmt = upos(U)[0]
+    pk, rest = first_pack(E.ret())
+    ctx.require(fmt is not None and pk is not None and fmt_of(list(tq.args(pk).values())[0]) is not None,
+                'non-constant wire format or no leading struct.pack in %s' % cls.qual)
+    efmt = fmt_of(list(tq.args(pk).values())[0])
+    eargs = list(tq.args(pk).values())[1:]
     dl, dsize = layout(fmt, A)
     el, esize = layout(efmt, A)
     want_size = sum(w for _, w, _ in fields)
-    ctx.check(dsize == want_size and (off is None or src(off) == '0'), 'W1', '%s: the decoder reads the %d fixed octets at the start (%s)'
-              % (title, want_size, fmt), key=('W1', title, 'decode-size'), site=ctx.site(dfi, call), detail={'found': dsize})
+    ctx.check(dsize == want_size, 'W1', '%s: the decoder reads the %d fixed octets at the start (%s)' % (title, want_size, fmt),
+              key=('W1', title, 'decode-size'), site=dsite, detail={'found': dsize})
     ctx.check(esize == want_size, 'W1', '%s: the encoder writes %d fixed octets (%s)' % (title, want_size, efmt),
-              key=('W1', title, 'encode-size'), site=ctx.site(efi, pk), detail={'found': esize})
-    dmap = {o: (w, names[i] if i < len(names) else None) for i, (o, w) in enumerate(dl)}
-    eargs = pk.args[1:]
+              key=('W1', title, 'encode-size'), site=esite, detail={'found': esize})
+    ctx.check(len(eargs) == len(el), 'W1', '%s: encoder supplies one value per field' % title, key=('W1', title, 'encode-arity'), site=esite)
+    ap = attr_params(ctx, cls)
+    rets = ctor_returns(ctx, cls, dfi)
+    ctx.check(bool(rets), 'W1', '%s: the decoder returns the decoded object' % title, key=('W1', title, 'decode-arity'), site=dsite)
+    used = set()
+    for t in all_terms(D):
+        used |= indices_in(t, U.term)
+    dmap = {o: (w, i) for i, (o, w) in enumerate(dl)}
     emap = {o: (w, eargs[i] if i < len(eargs) else None) for i, (o, w) in enumerate(el)}
-    ctx.check(len(names) == len(dl) or names[0].endswith('[*]'), 'W1', '%s: decoder binds one name per field' % title,
-              key=('W1', title, 'decode-arity'), site=ctx.site(dfi, call))
-    ctx.check(len(eargs) == len(el), 'W1', '%s: encoder supplies one value per field' % title, key=('W1', title, 'encode-arity'),
-              site=ctx.site(efi, pk))
     named_d, named_e = set(), set()
     for o, w, role in fields:
         if role == RES:
@@ -204,34 +245,40 @@ def check_fixed(ctx, title, cls, dfn, di, efn, ei, fields, A=None):
         dd, ee = dmap.get(o), emap.get(o)
         what = role if isinstance(role, str) else role[1]
         ctx.check(dd is not None and dd[0] == w, 'W1', '%s: decoder has a %d-octet field at offset %d (%s)' % (title, w, o, what),
-                  key=('W1', title, 'decode-field', o), site=ctx.site(dfi, call), detail={'layout': dl})
+                  key=('W1', title, 'decode-field', o), site=dsite, detail={'layout': dl})
         ctx.check(ee is not None and ee[0] == w, 'W1', '%s: encoder has a %d-octet field at offset %d (%s)' % (title, w, o, what),
-                  key=('W1', title, 'encode-field', o), site=ctx.site(efi, pk), detail={'layout': el})
+                  key=('W1', title, 'encode-field', o), site=esite, detail={'layout': el})
         if dd is None or ee is None or dd[0] != w or ee[0] != w:
             continue
         named_d.add(o)
         named_e.add(o)
         if isinstance(role, str):
-            at = flows_to_attr(ctx, cls, dfi, dd[1]) if dd[1] else set()
+            # which attributes receive U[i] ?
+            at = set()
+            for pc, args in rets:
+                for prm, t in args.items():
+                    if dd[1] in indices_in(t, U.term):
+                        at |= {a for a, p_ in ap.items() if p_ == prm}
             ctx.check(at == {role}, 'W1', '%s: the value decoded at offset %d becomes attribute `%s`' % (title, o, role),
-                      key=('W1', title, 'decode-flow', o), site=ctx.site(dfi, call), detail={'target': dd[1], 'flows to': sorted(at)})
-            es = src(ee[1]) if ee[1] is not None else None
-            ctx.check(es in ('self.' + role, 'self.%s.packed' % role), 'W1', '%s: the encoder writes attribute `%s` at offset %d' % (
-                title, role, o), key=('W1', title, 'encode-attr', o), site=ctx.site(efi, pk), detail={'found': es})
+                      key=('W1', title, 'decode-flow', o), site=dsite, detail={'flows to': sorted(at)})
+            es = ee[1]
+            me = ('attr', ('param', 'self'), role)
+            ctx.check(es in (me, ('attr', me, 'packed')), 'W1', '%s: the encoder writes attribute `%s` at offset %d' % (title, role, o),
+                      key=('W1', title, 'encode-attr', o), site=esite, detail={'found': tq.text(es) if es is not None else None})
         else:
-            ctx.check(dd[1] not in (None, '_'), 'W1', '%s: the decoder keeps the %s field at offset %d' % (title, role[0], o),
-                      key=('W1', title, 'decode-size-kept', o), site=ctx.site(dfi, call))
-            es = src(ee[1]) if ee[1] is not None else None
-            ctx.check(es == role[1], 'W1', '%s: the encoder writes %s at offset %d' % (title, role[1], o),
-                      key=('W1', title, 'encode-size', o), site=ctx.site(efi, pk), detail={'found': es})
-    for o, (w, nm) in dmap.items():
+            ctx.check(dd[1] in used, 'W1', '%s: the decoder keeps the %s field at offset %d' % (title, role[0], o),
+                      key=('W1', title, 'decode-size-kept', o), site=dsite)
+            es = ee[1]
+            ctx.check(es is not None and same(es, E.expr(role[1])), 'W1', '%s: the encoder writes %s at offset %d' % (title, role[1], o),
+                      key=('W1', title, 'encode-size', o), site=esite, detail={'found': tq.text(es) if es is not None else None})
+    for o, (w, i) in dmap.items():
         if o not in named_d:
-            ctx.check(nm == '_', 'W1', '%s: RESERVED octets at offset %d are ignored by the decoder' % (title, o),
-                      key=('W1', title, 'reserved-decoded', o), site=ctx.site(dfi, call), detail={'bound to': nm})
+            ctx.check(i not in used, 'W1', '%s: RESERVED octets at offset %d are ignored by the decoder' % (title, o),
+                      key=('W1', title, 'reserved-decoded', o), site=dsite)
     for o, (w, a) in emap.items():
         if o not in named_e:
-            ctx.check(isinstance(a, ast.Constant) and a.value == 0, 'W1', '%s: RESERVED octets at offset %d are sent as zero' % (title, o),
-                      key=('W1', title, 'reserved-encoded', o), site=ctx.site(efi, pk), detail={'found': src(a) if a is not None else None})
+            ctx.check(a == const(0), 'W1', '%s: RESERVED octets at offset %d are sent as zero' % (title, o),
+                      key=('W1', title, 'reserved-encoded', o), site=esite, detail={'found': tq.text(a) if a is not None else None})
 
 
 def run(ctx):
@@ -243,30 +290,30 @@ def run(ctx):
     for title, cname, dfn, di, efn, ei, fields in STRUCTS:
         check_fixed(ctx, title, prog.cls(M + cname), dfn, di, efn, ei, fields)
     # bodies that follow the fixed part
-    tails = [('PayloadKE', 'ke_data', 'data[4:]'), ('PayloadID', 'id_data', 'data[4:]'), ('PayloadAUTH', 'auth_data', 'data[4:]')]
-    for cname, attr, want in tails:
+    tails = [('PayloadKE', 'ke_data'), ('PayloadID', 'id_data'), ('PayloadAUTH', 'auth_data')]
+    for cname, attr in tails:
         c = prog.cls(M + cname)
         pf, tb = c.lookup('parse'), c.lookup('to_bytes')
-        rets = [r for r in walk_no_nested(pf.node) if isinstance(r, ast.Return) and isinstance(r.value, ast.Call)]
+        D, E = ctx.sval(pf), ctx.sval(tb)
+        ap = attr_params(ctx, c)
+        dparam = ('param', pf.call_params()[0])
         ok = False
-        for r in rets:
-            b = kwargs_of(r.value, target=c.lookup('__init__'))
-            for p, a in b.items():
-                if attr_of_param(c.lookup('__init__'), p) == attr:
-                    ok = src(inline(res, pf, a, 2)) == want
+        for pc, args in ctor_returns(ctx, c, pf):
+            t = args.get(ap.get(attr))
+            ok = t == ('slice', dparam, const(4), NONE, NONE)
         ctx.check(ok, 'W1', '%s: `%s` is everything after the 4 fixed octets' % (cname, attr), key=('W1', cname, 'tail-decode'),
                   site=ctx.site(pf, pf.node))
-        adds = [src(n.value) for n in walk_no_nested(tb.node) if isinstance(n, ast.AugAssign)]
-        ctx.check(adds == ['self.' + attr], 'W1', '%s: the encoder appends `%s` after the fixed octets' % (cname, attr),
-                  key=('W1', cname, 'tail-encode'), site=ctx.site(tb, tb.node))
+        pk, rest = first_pack(E.ret())
+        ctx.check(pk is not None and rest == [('attr', ('param', 'self'), attr)], 'W1', '%s: the encoder appends `%s` after the fixed octets'
+                  % (cname, attr), key=('W1', cname, 'tail-encode'), site=ctx.site(tb, tb.node), detail={'returned': tq.text(E.ret())})
     # raw-body payloads
     for cname, attr in (('PayloadNONCE', 'nonce'), ('PayloadVENDOR', 'vendor_id'), ('PayloadSK', 'ciphertext')):
         c = prog.cls(M + cname)
         pf, tb = c.lookup('parse'), c.lookup('to_bytes')
-        r = [x for x in walk_no_nested(pf.node) if isinstance(x, ast.Return)]
-        ok = len(r) == 1 and isinstance(r[0].value, ast.Call) and callee_name(r[0].value) == cname and src(r[0].value.args[0]) == 'data' \
-            and attr_of_param(c.lookup('__init__'), c.lookup('__init__').call_params()[0]) == attr \
-            and src(tb.node.body[-1]) == 'return self.' + attr
+        ap = attr_params(ctx, c)
+        rets = ctor_returns(ctx, c, pf)
+        ok = len(rets) == 1 and rets[0][1].get(ap.get(attr)) == ('param', pf.call_params()[0]) and \
+            ctx.sval(tb).ret() == ('attr', ('param', 'self'), attr)
         ctx.check(ok, 'W1', '%s: the body is the raw `%s` in both directions' % (cname, attr), key=('W1', cname, 'raw'),
                   site=ctx.site(pf, pf.node))
     check_notify_proposal_delete(ctx)
@@ -307,414 +354,751 @@ def run(ctx):
     check_dump(ctx)
 
 
+def LEN(t):
+    return ('call', 'builtins.len', NONE, (('#0', t),))
+
+
+def fixed_unpack(ctx, fi):
+    """(sval, data parameter term, the unpack CallRec that reads the fixed part at the start of the data)"""
+    D = ctx.sval(fi)
+    dparam = ('param', fi.call_params()[0])
+    ups = [c for c in unpack_calls(D) if upos(c)[1] == dparam and upos(c)[2] in (None, const(0))]
+    ctx.require(len(ups) >= 1, 'anchor vanished: fixed-part unpack of %s' % fi.qual)
+    return D, dparam, ups[0]
+
+
+def cursor_loops(sv):
+    """[(loop id, cursor name, initial term, advance term)] for loops that carry a cursor updated as cursor + <advance>"""
+    out = []
+    for lid, ups in sv.loop_updates.items():
+        for k, v in ups.items():
+            sv_ = strip_ids(v)
+            if sv_[0] == 'add' and sv_[1][0] == ('acc', k, 0):
+                rest = sv_[1][1:]
+                out.append((lid, k, sv.loop_inits.get(lid, {}).get(k), rest[0] if len(rest) == 1 else ('add', rest)))
+    return out
+
+
 def check_notify_proposal_delete(ctx):
-    prog, res = ctx.prog, ctx.res
+    prog = ctx.prog
     # NOTIFY: spi = data[4:4+spi_size], data = data[4+spi_size:]
     c = prog.cls(M + 'PayloadNOTIFY')
     pf, tb = c.lookup('parse'), c.lookup('to_bytes')
-    ss = unpacks(pf)[0][1][1]
-    sp = [src(d) for d in res.local_defs(pf).get('spi', []) if isinstance(d, ast.AST)]
-    nd = single_def(res, pf, 'notification_data')
-    ctx.check(sorted(sp) == sorted(['data[4:4 + %s]' % ss, "b''"]) and isinstance(nd, ast.AST) and src(nd) == 'data[4 + %s:]' % ss, 'W2',
-              'Notify: SPI = the spi_size octets after the fixed part, notification data = the rest', key=('W2', 'notify-slices'),
-              site=ctx.site(pf, pf.node))
-    adds = [src(n.value) for n in walk_no_nested(tb.node) if isinstance(n, ast.AugAssign)]
-    ctx.check(adds == ['self.spi', 'self.notification_data'], 'W2', 'Notify: the encoder appends SPI then notification data',
-              key=('W2', 'notify-encode'), site=ctx.site(tb, tb.node))
+    D, d, U = fixed_unpack(ctx, pf)
+    ap = attr_params(ctx, c)
+    size = ('index', strip_ids(U.term), const(1))
+    end = ('add', (size, const(4)))
+    rets = ctor_returns(ctx, c, pf)
+    ok = len(rets) >= 1
+    for pc, args in rets:
+        spi = strip_ids(args.get(ap.get('spi'), NONE))
+        nd = strip_ids(args.get(ap.get('notification_data'), NONE))
+        want_spi = ('slice', d, const(4), end, NONE)
+        spi_ok = spi == want_spi or (spi[0] == 'cond' and want_spi in spi[2:] and const(b'') in spi[2:] and
+                                     common.term_table(ctx, spi, [{tq.text(size): 0}], None) in ([b''],) )
+        if spi[0] == 'cond':
+            # empty exactly when the size is 0
+            def leaf0(t):
+                if t == size:
+                    return 0
+                raise tq.NoValue()
+
+            def leaf8(t):
+                if t == size:
+                    return 8
+                if t == want_spi:
+                    return 'SPI'
+                raise tq.NoValue()
+            try:
+                spi_ok = tq.teval(spi, leaf0) == b'' and tq.teval(spi, leaf8) == 'SPI'
+            except (tq.NoValue, Exception):
+                spi_ok = False
+        ok = ok and spi_ok and nd == ('slice', d, end, NONE, NONE)
+    ctx.check(ok, 'W2', 'Notify: SPI = the spi_size octets after the fixed part, notification data = the rest', key=('W2', 'notify-slices'),
+              site=ctx.site(pf, pf.node), detail={'returns': [{k: tq.text(v, 200) for k, v in a.items()} for _, a in rets]})
+    pk, rest = first_pack(ctx.sval(tb).ret())
+    me = ('param', 'self')
+    rest_s = [strip_ids(x) for x in rest]
+    ok = len(rest_s) == 2 and rest_s[1] == ('attr', me, 'notification_data') and (
+        rest_s[0] == ('attr', me, 'spi') or (rest_s[0][0] == 'when' and rest_s[0][2] == ('attr', me, 'spi')))
+    ctx.check(ok, 'W2', 'Notify: the encoder appends SPI then notification data', key=('W2', 'notify-encode'), site=ctx.site(tb, tb.node),
+              detail={'after the fixed part': [tq.text(x) for x in rest]})
     # Proposal spi
     c = prog.cls(M + 'Proposal')
     pf, tb = c.lookup('parse'), c.lookup('to_bytes')
-    ss = unpacks(pf)[0][1][2]
-    sp = [src(d) for d in res.local_defs(pf).get('spi', []) if isinstance(d, ast.AST)]
-    od = [src(d) for d in res.local_defs(pf).get('offset', []) if isinstance(d, ast.AST)]
-    ctx.check(sorted(sp) == sorted(['data[4:4 + %s]' % ss, "b''"]) and '4 + %s' % ss in od, 'W2',
-              'Proposal: SPI = the spi_size octets after the fixed part; transforms start right after it', key=('W2', 'proposal-slices'),
+    D, d, U = fixed_unpack(ctx, pf)
+    ap = attr_params(ctx, c)
+    size = ('index', strip_ids(U.term), const(2))
+    end = ('add', (size, const(4)))
+    rets = ctor_returns(ctx, c, pf)
+    ok = len(rets) >= 1
+    for pc, args in rets:
+        spi = strip_ids(args.get(ap.get('spi'), NONE))
+        want_spi = ('slice', d, const(4), end, NONE)
+        spi_ok = spi == want_spi
+        if spi[0] == 'cond':
+            def leaf0(t):
+                if t == size:
+                    return 0
+                raise tq.NoValue()
+
+            def leaf8(t):
+                if t == size:
+                    return 8
+                if t == want_spi:
+                    return 'SPI'
+                raise tq.NoValue()
+            try:
+                spi_ok = tq.teval(spi, leaf0) == b'' and tq.teval(spi, leaf8) == 'SPI'
+            except (tq.NoValue, Exception):
+                spi_ok = False
+        ok = ok and spi_ok
+    cur = [x for x in cursor_loops(D)]
+    ok = ok and len(cur) == 1 and cur[0][2] is not None and strip_ids(cur[0][2]) == end
+    ctx.check(ok, 'W2', 'Proposal: SPI = the spi_size octets after the fixed part; transforms start right after it', key=('W2', 'proposal-slices'),
               site=ctx.site(pf, pf.node))
-    nt = unpacks(pf)[0][1][3]
-    cmpn = [n for n in walk_no_nested(pf.node) if isinstance(n, ast.If) and compare_parts(n.test) and
-            {src(compare_parts(n.test)[0]), src(compare_parts(n.test)[2])} == {nt, 'len(transforms)'}
-            and compare_parts(n.test)[1] is ast.NotEq and isinstance(n.body[-1], ast.Raise)]
-    ctx.check(len(cmpn) == 1, 'W2', 'Proposal: the announced number of transforms must equal the number parsed', key=('W2', 'proposal-count'),
-              site=ctx.site(pf, pf.node))
+    count_check(ctx, c, pf, D, U, 3, 'transforms', 'W2', 'Proposal: the announced number of transforms must equal the number parsed',
+                ('W2', 'proposal-count'))
     # DELETE
     c = prog.cls(M + 'PayloadDELETE')
     pf, tb = c.lookup('parse'), c.lookup('to_bytes')
-    u = unpacks(pf)[0][1]
-    loops = [n for n in walk_no_nested(pf.node) if isinstance(n, ast.For)]
-    ok = len(loops) == 1 and src(loops[0].iter) in ('range(0, %s)' % u[2], 'range(%s)' % u[2]) and [src(s) for s in loops[0].body] == [
-        'spis.append(data[offset:offset + %s])' % u[1], 'offset += %s' % u[1]] and '4' in [
-        src(d) for d in res.local_defs(pf).get('offset', []) if isinstance(d, ast.AST)]
+    D, d, U = fixed_unpack(ctx, pf)
+    ap = attr_params(ctx, c)
+    ssz, num = ('index', strip_ids(U.term), const(1)), ('index', strip_ids(U.term), const(2))
+    rets = ctor_returns(ctx, c, pf)
+    ok = len(rets) == 1
+    if ok:
+        spis = strip_ids(rets[0][1].get(ap.get('spis'), NONE))
+        ok = spis[0] == 'list' and len(spis[1]) == 1 and spis[1][0][0] == 'each' and not spis[1][0][3]
+        if ok:
+            # the k-th SPI is data[4 + k * spi_size : 4 + (k + 1) * spi_size] for k = 0 .. num_spis - 1, whether the code walks a cursor
+            # or computes the window from the index
+            from ..bounds import poly
+            each = spis[1][0]
+            dom, item = each[2], each[4]
+            ok = tq.is_call(dom, 'builtins.range') and list(tq.args(dom).values())[-1] == num and (
+                len(tq.args(dom)) == 1 or list(tq.args(dom).values())[0] == const(0))
+            K = ('k',)
+            subst = {('elem', dom, 0): {(K,): 1}}
+            for lid, name, init, step in cursor_loops(D):
+                if init is not None and not tq.contains(step, ('acc', name, 0)):
+                    closed = dict(poly(init))
+                    for m, cf in poly(step).items():
+                        mm = tuple(sorted(m + (K,), key=repr))
+                        closed[mm] = closed.get(mm, 0) + cf
+                    subst[('acc', name, 0)] = closed
+            ok = ok and item[0] == 'slice' and item[1] == d and item[4] == NONE
+            if ok:
+                start, end = poly(item[2], subst), poly(item[3], subst)
+                width = dict(end)
+                for m, cf in start.items():
+                    width[m] = width.get(m, 0) - cf
+                width = {m: cf for m, cf in width.items() if cf}
+                ok = start == {(): 4, tuple(sorted((K, ssz), key=repr)): 1} and width == {(ssz,): 1}
     ctx.check(ok, 'W2', 'Delete: num_spis SPIs of spi_size octets each follow the fixed part', key=('W2', 'delete-slices'),
               site=ctx.site(pf, pf.node))
-    loops = [n for n in walk_no_nested(tb.node) if isinstance(n, ast.For)]
-    ctx.check(len(loops) == 1 and src(loops[0].iter) == 'self.spis' and [src(s) for s in loops[0].body] == ['data += %s' % src(loops[0].target)],
-              'W2', 'Delete: the encoder appends every SPI', key=('W2', 'delete-encode'), site=ctx.site(tb, tb.node))
+    pk, rest = first_pack(ctx.sval(tb).ret())
+    rs = [strip_ids(x) for x in rest]
+    spl = ('attr', ('param', 'self'), 'spis')
+    ctx.check(len(rs) == 1 and rs[0] == ('sum', 0, spl, ('elem', spl, 0)), 'W2', 'Delete: the encoder appends every SPI', key=('W2', 'delete-encode'),
+              site=ctx.site(tb, tb.node), detail={'after the fixed part': [tq.text(x) for x in rest]})
     # TS payload count check
     c = prog.cls(M + 'PayloadTS')
     pf = c.lookup('parse')
-    nt = unpacks(pf)[0][1][0]
-    cmpn = [n for n in walk_no_nested(pf.node) if isinstance(n, ast.If) and compare_parts(n.test) and
-            {src(compare_parts(n.test)[0]), src(compare_parts(n.test)[2])} == {nt, 'len(traffic_selectors)'}
-            and compare_parts(n.test)[1] is ast.NotEq and isinstance(n.body[-1], ast.Raise)]
-    ctx.check(len(cmpn) == 1, 'W2', 'TS payload: the announced number of selectors must equal the number parsed', key=('W2', 'ts-count'),
-              site=ctx.site(pf, pf.node))
+    D, d, U = fixed_unpack(ctx, pf)
+    count_check(ctx, c, pf, D, U, 0, 'traffic_selectors', 'W2', 'TS payload: the announced number of selectors must equal the number parsed',
+                ('W2', 'ts-count'))
+
+
+def count_check(ctx, c, pf, D, U, idx, attr, rule, what, key):
+    """every return of the decoder is conditioned on  U[idx] == len(<the list that becomes attr>)  and the failing side raises"""
+    ap = attr_params(ctx, c)
+    rets = ctor_returns(ctx, c, pf)
+    ok = bool(rets)
+    for pc, args in rets:
+        lst = args.get(ap.get(attr))
+        goal = D.mk_cmp('==', ('index', U.term, const(idx)), LEN(lst)) if lst is not None else None
+        ok = ok and goal is not None and tq.entails(pc, goal) is True
+        if ok:
+            bad = [(rpc, rt) for rpc, rt, _ in D.raises if tq.entails(rpc, ('not', goal)) is True]
+            ok = bool(bad) and all(tq.is_call(rt, 'new message.InvalidSyntax') for _, rt in bad)
+    ctx.check(ok, rule, what, key=key, site=ctx.site(pf, pf.node))
+
+
+def addr_len_ok(ctx, t, type_term):
+    vals = []
+    for v in (7, 8):
+        def leaf(x, v=v):
+            if strip_ids(x) == strip_ids(type_term):
+                return v
+            if x[0] == 'global' and x[1].endswith('TS_IPV4_ADDR_RANGE'):
+                return 7
+            if x[0] == 'global' and x[1].endswith('TS_IPV6_ADDR_RANGE'):
+                return 8
+            raise tq.NoValue()
+        try:
+            vals.append(tq.teval(t, leaf))
+        except (tq.NoValue, Exception):
+            vals.append(None)
+    return vals == [4, 16]
 
 
 def check_ts(ctx):
-    prog, res = ctx.prog, ctx.res
+    prog = ctx.prog
     c = prog.cls(M + 'TrafficSelector')
     pf, tb = c.lookup('parse'), c.lookup('to_bytes')
-    ups = unpacks(pf)
-    pk = packs(tb)
-    ctx.require(len(ups) == 2 and len(pk) == 1, 'anchor vanished: TrafficSelector codec')
+    D, E = ctx.sval(pf), ctx.sval(tb)
+    d = ('param', pf.call_params()[0])
+    ups = [u for u in unpack_calls(D) if upos(u)[1] == d]
+    pk, rest = first_pack(E.ret())
+    ctx.require(len(ups) == 2 and pk is not None and not rest, 'anchor vanished: TrafficSelector codec')
+    f0, _, b0 = upos(ups[0])
+    f1, _, b1 = upos(ups[1])
+    fe = fmt_of(list(tq.args(pk).values())[0])
+    b0 = b0 if b0 is not None else const(0)
+    rel = b1 is not None and strip_ids(b1) == strip_ids(D.mk_cmp('==', NONE, NONE) and ('add', (b0, const(8))) if b0 != const(0) else const(8))
+    if b0 != const(0) and b1 is not None:
+        from ..sval import mk_bin
+        rel = strip_ids(b1) == strip_ids(mk_bin('+', b0, const(8)))
     for A in (4, 16):
-        l1, s1 = layout(ups[0][0])
-        l2, s2 = layout(ups[1][0], A)
-        le, se = layout(fmt_text(pk[0].args[0]), A)
-        # the decoder may read at a base offset inside a larger buffer: addresses must then sit at base + 8
-        b0 = src(ups[0][2]) if ups[0][2] is not None else '0'
-        b1 = src(ups[1][2]) if ups[1][2] is not None else '0'
-        rel = b1 == '8' if b0 == '0' else b1 in ('%s + 8' % b0, '8 + %s' % b0)
+        l1, s1 = layout(f0)
+        l2, s2 = layout(f1, A)
+        le, se = layout(fe, A)
         ok = l1 == [(0, 1), (1, 1), (2, 2), (4, 2), (6, 2)] and l2 == [(0, A), (A, A)] and rel \
             and le == [(0, 1), (1, 1), (2, 2), (4, 2), (6, 2), (8, A), (8 + A, A)]
         ctx.check(ok, 'W1', 'Traffic Selector (3.13.1) with %d-octet addresses: type, protocol, length, start port, end port, '
                   'start address, end address at offsets 0,1,2,4,6,8,%d in both directions' % (A, 8 + A), key=('W1', 'ts-layout', A),
                   site=ctx.site(pf, pf.node))
-    n1, n2 = ups[0][1], ups[1][1]
-    want = ['ts_type', 'ip_proto', None, 'start_port', 'end_port']
-    for nm, at in zip(n1, want):
-        if at is None:
-            ctx.check(nm == '_', 'W1', 'Traffic Selector: the selector length field is not trusted for slicing inside parse',
-                      key=('W1', 'ts', 'length-ignored'), site=ctx.site(pf, pf.node))
-        else:
-            ctx.check(flows_to_attr(ctx, c, pf, nm) == {at}, 'W1', 'Traffic Selector: decoded %s becomes attribute %s' % (nm, at),
-                      key=('W1', 'ts', 'flow', at), site=ctx.site(pf, pf.node))
-    for nm, at in zip(n2, ['start_addr', 'end_addr']):
-        ctx.check(flows_to_attr(ctx, c, pf, nm) == {at}, 'W1', 'Traffic Selector: decoded %s becomes attribute %s' % (nm, at),
-                  key=('W1', 'ts', 'flow', at), site=ctx.site(pf, pf.node))
-    ea = [src(a) for a in pk[0].args[1:]]
-    ctx.check(ea == ['self.ts_type', 'self.ip_proto', '8 + addr_len * 2', 'self.start_port', 'self.end_port', 'self.start_addr.packed',
-                     'self.end_addr.packed'], 'W1', 'Traffic Selector: the encoder writes the same attributes at those positions and '
-              'length = 8 + 2 * address width', key=('W1', 'ts', 'encode-args'), site=ctx.site(tb, tb.node), detail={'found': ea})
-    for fi, tvar in ((pf, n1[0]), (tb, 'self.ts_type')):
-        d = single_def(res, fi, 'addr_len')
-        ok = isinstance(d, ast.IfExp)
-        if ok:
-            for t, w in ((7, 4), (8, 16)):
-                ok = ok and Interp(prog, fi, {tvar: t}).ev(d) == w
-        ctx.check(ok, 'W2', 'Traffic Selector: address width is 4 for TS_IPV4_ADDR_RANGE (7) and 16 for TS_IPV6_ADDR_RANGE (8) in %s' % fi.name,
-                  key=('W2', 'ts-addr-len', fi.name), site=ctx.site(fi, fi.node))
-    fmtcalls = [ups[1][3].args[0], pk[0].args[0]]
-    ctx.check(all(isinstance(f, ast.Call) and [src(a) for a in f.args] == ['addr_len'] for f in fmtcalls), 'W2',
-              'Traffic Selector: both formats take the address width from addr_len', key=('W2', 'ts-format-arg'), site=ctx.site(pf, pf.node))
+    ap = attr_params(ctx, c)
+    rets = ctor_returns(ctx, c, pf)
+    used = set()
+    for t in all_terms(D):
+        used |= indices_in(t, ups[0].term)
+    ctx.check(2 not in used, 'W1', 'Traffic Selector: the selector length field is not trusted for slicing inside parse',
+              key=('W1', 'ts', 'length-ignored'), site=ctx.site(pf, pf.node))
+    for i, at in ((0, 'ts_type'), (1, 'ip_proto'), (3, 'start_port'), (4, 'end_port')):
+        got = {a for pc, args in rets for a, p_ in ap.items() if i in indices_in(args.get(p_, NONE), ups[0].term)
+               and not (a in ('start_addr', 'end_addr'))}
+        ctx.check(got == {at}, 'W1', 'Traffic Selector: the value decoded at position %d becomes attribute %s' % (i, at),
+                  key=('W1', 'ts', 'flow', at), site=ctx.site(pf, pf.node), detail={'flows to': sorted(got)})
+    for i, at in ((0, 'start_addr'), (1, 'end_addr')):
+        got = {a for pc, args in rets for a, p_ in ap.items() if i in indices_in(args.get(p_, NONE), ups[1].term)}
+        ctx.check(got == {at}, 'W1', 'Traffic Selector: the %s address decoded becomes attribute %s' % ('first' if i == 0 else 'second', at),
+                  key=('W1', 'ts', 'flow', at), site=ctx.site(pf, pf.node), detail={'flows to': sorted(got)})
+    ea = list(tq.args(pk).values())[1:]
+    me = ('param', 'self')
+    want = [('attr', me, 'ts_type'), ('attr', me, 'ip_proto'), None, ('attr', me, 'start_port'), ('attr', me, 'end_port'),
+            ('attr', ('attr', me, 'start_addr'), 'packed'), ('attr', ('attr', me, 'end_addr'), 'packed')]
+    ok = len(ea) == 7 and all(w is None or strip_ids(a) == w for a, w in zip(ea, want))
+    if ok:
+        # length = 8 + 2 * address width
+        vals = []
+        for v, w in ((7, 4), (8, 16)):
+            def leaf(x, v=v):
+                if strip_ids(x) == ('attr', me, 'ts_type'):
+                    return v
+                if x[0] == 'global' and x[1].endswith('TS_IPV4_ADDR_RANGE'):
+                    return 7
+                if x[0] == 'global' and x[1].endswith('TS_IPV6_ADDR_RANGE'):
+                    return 8
+                raise tq.NoValue()
+            try:
+                vals.append(tq.teval(ea[2], leaf))
+            except (tq.NoValue, Exception):
+                vals.append(None)
+        ok = vals == [16, 40]
+    ctx.check(ok, 'W1', 'Traffic Selector: the encoder writes the same attributes at those positions and length = 8 + 2 * address width',
+              key=('W1', 'ts', 'encode-args'), site=ctx.site(tb, tb.node), detail={'found': [tq.text(a) for a in ea]})
+    fa_d = tq.args(list(ups[1].args.values())[0]) if tq.is_call(list(ups[1].args.values())[0], 'method.format') else {}
+    fa_e = tq.args(list(tq.args(pk).values())[0]) if tq.is_call(list(tq.args(pk).values())[0], 'method.format') else {}
+    ctx.check(len(fa_d) == 1 and addr_len_ok(ctx, list(fa_d.values())[0], ('index', ups[0].term, const(0))), 'W2',
+              'Traffic Selector: address width is 4 for TS_IPV4_ADDR_RANGE (7) and 16 for TS_IPV6_ADDR_RANGE (8) in parse',
+              key=('W2', 'ts-addr-len', 'parse'), site=ctx.site(pf, pf.node))
+    ctx.check(len(fa_e) == 1 and addr_len_ok(ctx, list(fa_e.values())[0], ('attr', me, 'ts_type')), 'W2',
+              'Traffic Selector: address width is 4 for TS_IPV4_ADDR_RANGE (7) and 16 for TS_IPV6_ADDR_RANGE (8) in to_bytes',
+              key=('W2', 'ts-addr-len', 'to_bytes'), site=ctx.site(tb, tb.node))
     # TS payload loop: selectors are cut by their own length field
     c2 = prog.cls(M + 'PayloadTS')
     pf2, tb2 = c2.lookup('parse'), c2.lookup('to_bytes')
-    u = unpacks(pf2)
-    ctx.check(len(u) == 2 and layout(u[1][0])[0] == [(0, 2), (2, 2)] and src(u[1][2]) == 'offset' and u[1][1][0] == '_', 'W2',
-              'TS payload: each selector\'s length is read from octets 2-3 of the selector', key=('W2', 'ts-selector-length'),
+    D2 = ctx.sval(pf2)
+    d2 = ('param', pf2.call_params()[0])
+    cur = cursor_loops(D2)
+    ok = len(cur) == 1 and cur[0][2] == const(4)
+    lens = [u for u in unpack_calls(D2) if upos(u)[2] is not None and strip_ids(upos(u)[2])[0] == 'acc']
+    ok = ok and len(lens) == 1 and layout(upos(lens[0])[0])[0] == [(0, 2), (2, 2)]
+    ctx.check(ok, 'W2', 'TS payload: each selector\'s length is read from octets 2-3 of the selector', key=('W2', 'ts-selector-length'),
               site=ctx.site(pf2, pf2.node))
-    ln = u[1][1][1] if len(u) == 2 else 'length'
-    calls = [x for x in calls_in(pf2.node) if callee_name(x) == 'parse' and src(x.func.value) == 'TrafficSelector']
-    adv = [n for n in walk_no_nested(pf2.node) if isinstance(n, ast.AugAssign) and src(n.target) == 'offset']
-    ctx.check(len(calls) == 1 and ([src(a) for a in calls[0].args] == ['data[offset:offset + %s]' % ln]
-                                   or [src(a) for a in calls[0].args] == ['data', 'offset']) and len(adv) == 1 and src(adv[0].value) == ln
-              and '4' in [src(d) for d in res.local_defs(pf2).get('offset', []) if isinstance(d, ast.AST)], 'W2',
-              'TS payload: selectors start after the 4 fixed octets, each parsed at the cursor, which advances by the announced length',
+    if ok:
+        ln = ('index', strip_ids(lens[0].term), const(1))
+        acc = ('acc', cur[0][1], 0)
+        calls = D2.calls_to(qual='message.TrafficSelector.parse')
+        a = [strip_ids(x) for x in calls[0].args.values()] if len(calls) == 1 else []
+        ok = len(calls) == 1 and (a == [('slice', d2, acc, ('add', (acc, ln)), NONE)] or a == [d2, acc]) and cur[0][3] == ln
+        used = set()
+        for t in all_terms(D2):
+            used |= indices_in(t, lens[0].term)
+        ok = ok and 0 not in used
+    ctx.check(ok, 'W2', 'TS payload: selectors start after the 4 fixed octets, each parsed at the cursor, which advances by the announced length',
               key=('W2', 'ts-loop'), site=ctx.site(pf2, pf2.node))
-    loops = [n for n in walk_no_nested(tb2.node) if isinstance(n, ast.For)]
-    ctx.check(len(loops) == 1 and src(loops[0].iter) == 'self.traffic_selectors' and [src(s) for s in loops[0].body] == [
-        'data += %s.to_bytes()' % src(loops[0].target)], 'W2', 'TS payload: the encoder appends every selector in order',
-        key=('W2', 'ts-encode-loop'), site=ctx.site(tb2, tb2.node))
+    pk2, rest2 = first_pack(ctx.sval(tb2).ret())
+    tsl = ('attr', me, 'traffic_selectors')
+    rs = [strip_ids(x) for x in rest2]
+    ctx.check(len(rs) == 1 and rs[0][0] == 'sum' and rs[0][2] == tsl and tq.is_call(rs[0][3], 'message.TrafficSelector.to_bytes')
+              and rs[0][3][2] == ('elem', tsl, 0), 'W2', 'TS payload: the encoder appends every selector in order',
+              key=('W2', 'ts-encode-loop'), site=ctx.site(tb2, tb2.node))
 
 
 def check_transform_attr(ctx):
-    prog, res = ctx.prog, ctx.res
+    prog = ctx.prog
     c = prog.cls(M + 'Transform')
     pf, tb = c.lookup('parse'), c.lookup('to_bytes')
-    u = unpacks(pf)
-    ctx.require(len(u) == 2, 'anchor vanished: Transform attribute decoding')
-    ok = layout(u[1][0])[0] == [(0, 2), (2, 2)] and src(u[1][2]) == 'offset'
-    at, av = u[1][1]
-    ifs = [n for n in walk_no_nested(pf.node) if isinstance(n, ast.If) and at in src(n.test)]
-    ok = ok and len(ifs) == 1
+    D, d, U = fixed_unpack(ctx, pf)
+    ap = attr_params(ctx, c)
+    cur = cursor_loops(D)
+    attrs = [u for u in unpack_calls(D) if upos(u)[2] is not None and strip_ids(upos(u)[2])[0] == 'acc']
+    ok = len(attrs) == 1 and layout(upos(attrs[0])[0])[0] == [(0, 2), (2, 2)]
     if ok:
-        vals = {x: Interp(prog, pf, {at: x}).ev(ifs[0].test) for x in (0x800E, 14, 0x800F, 0x000D, 0x8000 | 15)}
-        ok = vals == {0x800E: True, 14: True, 0x800F: False, 0x000D: False, 0x8000 | 15: False}
-        r = ifs[0].body[-1]
-        ok = ok and isinstance(r, ast.Return) and isinstance(r.value, ast.Call) and [src(a) for a in r.value.args][2:] == [av]
+        A = strip_ids(attrs[0].term)
+        at, av = ('index', A, const(0)), ('index', A, const(1))
+        rets = ctor_returns(ctx, c, pf)
+        with_len = [(pc, a) for pc, a in rets if strip_ids(a.get(ap.get('keylen'), NONE)) == av]
+        without = [(pc, a) for pc, a in rets if a.get(ap.get('keylen'), NONE) == NONE]
+        ok = len(with_len) == 1 and len(without) >= 1 and len(with_len) + len(without) == len(rets)
+        if ok:
+            conds = [a_ for a_ in strip_ids(with_len[0][0]) if tq.contains(a_[0], at)]
+            ok = len(conds) == 1
+            if ok:
+                vals = {}
+                for x in (0x800E, 14, 0x800F, 0x000D, 0x8000 | 15):
+                    def leaf(t, x=x):
+                        if t == at:
+                            return x
+                        raise tq.NoValue()
+                    try:
+                        vals[x] = bool(tq.teval(conds[0][0], leaf, D)) == conds[0][1]
+                    except (tq.NoValue, Exception):
+                        vals[x] = None
+                ok = vals == {0x800E: True, 14: True, 0x800F: False, 0x000D: False, 0x8000 | 15: False}
     ctx.check(ok, 'W2', 'Transform attribute: type 14 (KEYLEN, with or without the AF bit) carries the key length in its value field',
               key=('W2', 'keylen-decode'), site=ctx.site(pf, pf.node))
-    adv = [n for n in walk_no_nested(pf.node) if isinstance(n, ast.AugAssign) and src(n.target) == 'offset']
-    ctx.check(len(adv) == 1 and src(adv[0].value) == '4' and '4' in [src(d) for d in res.local_defs(pf).get('offset', []) if isinstance(d, ast.AST)],
-              'W2', 'Transform attributes are 4-octet TV attributes following the 4 fixed octets', key=('W2', 'attr-step'),
-              site=ctx.site(pf, pf.node))
-    pk = packs(tb)
-    ok = len(pk) == 2 and layout(fmt_text(pk[1].args[0]))[0] == [(0, 2), (2, 2)]
+    ctx.check(len(cur) == 1 and cur[0][2] == const(4) and cur[0][3] == const(4), 'W2',
+              'Transform attributes are 4-octet TV attributes following the 4 fixed octets', key=('W2', 'attr-step'), site=ctx.site(pf, pf.node))
+    pk, rest = first_pack(ctx.sval(tb).ret())
+    me = ('param', 'self')
+    ok = len(rest) == 1 and rest[0][0] == 'when' and tq.is_call(rest[0][2], 'struct.pack')
     if ok:
-        v = prog.const_eval(pk[1].args[1], tb.module, tb.cls)
-        ok = v == 0x800E and src(pk[1].args[2]) == 'self.keylen'
-        ifs = [n for n in walk_no_nested(tb.node) if isinstance(n, ast.If) and src(n.test) in ('self.keylen', 'self.keylen is not None')]
-        ok = ok and len(ifs) == 1 and any(pk[1] in ast.walk(s) for s in ifs[0].body)
+        a = list(tq.args(rest[0][2]).values())
+        cond = strip_ids(rest[0][1])
+        try:
+            code = tq.teval(a[1], None, ctx.sval(tb))
+        except (tq.NoValue, Exception):
+            code = None
+        ok = fmt_of(a[0]) is not None and layout(fmt_of(a[0]))[0] == [(0, 2), (2, 2)] and code == 0x800E \
+            and a[2] == ('attr', me, 'keylen') and cond in (((('attr', me, 'keylen'), True),),
+                                                           ((strip_ids(ctx.sval(tb).mk_cmp('is', ('attr', me, 'keylen'), NONE)), False),))
     ctx.check(ok, 'W2', 'Transform: a key length is sent as attribute 0x800E (AF bit | 14) with the length as value', key=('W2', 'keylen-encode'),
               site=ctx.site(tb, tb.node))
 
 
-def marker_ok(ctx, fi, expr, lst, more):
-    """`0 if index == len(lst) - 1 else <more>` evaluated for list lengths 1..3"""
-    try:
-        for n in (1, 2, 3):
-            for i in range(n):
-                v = Interp(ctx.prog, fi, {'index': i, lst: (0,) * n}).ev(expr)
-                if v != (0 if i == n - 1 else more):
+def marker_ok(term, seq, more):
+    """`0 if index == len(seq) - 1 else <more>` evaluated for list lengths 1..3"""
+    seq = strip_ids(seq)
+    for n in (1, 2, 3):
+        for i in range(n):
+            def leaf(t, i=i, n=n):
+                t = strip_ids(t)
+                if t == ('idx', seq, 0):
+                    return i
+                if t == seq:
+                    return (0,) * n
+                raise tq.NoValue()
+            try:
+                if tq.teval(term, leaf) != (0 if i == n - 1 else more):
                     return False
-        return True
-    except AnalysisError:
-        return False
+            except (tq.NoValue, Exception):
+                return False
+    return True
 
 
 def check_substructures(ctx):
-    prog, res = ctx.prog, ctx.res
-    for cname, inner, lst, more, title in (('Proposal', 'Transform', 'self.transforms', 3, 'Transform substructure header (3.3.2)'),
-                                           ('PayloadSA', 'Proposal', 'self.proposals', 2, 'Proposal substructure header (3.3.1)')):
+    prog = ctx.prog
+    me = ('param', 'self')
+    for cname, inner, lst, more, title in (('Proposal', 'Transform', 'transforms', 3, 'Transform substructure header (3.3.2)'),
+                                           ('PayloadSA', 'Proposal', 'proposals', 2, 'Proposal substructure header (3.3.1)')):
         c = prog.cls(M + cname)
         pf, tb = c.lookup('parse'), c.lookup('to_bytes')
-        u = [x for x in unpacks(pf) if x[2] is not None and src(x[2]) == 'offset']
-        ctx.check(len(u) == 1 and layout(u[0][0])[0] == [(0, 1), (1, 1), (2, 2)], 'W1', '%s: last/more (1), RESERVED (1), length (2) '
-                  'read at each element' % title, key=('W1', title, 'decode'), site=ctx.site(pf, pf.node))
-        if len(u) != 1:
+        D = ctx.sval(pf)
+        d = ('param', pf.call_params()[0])
+        cur = cursor_loops(D)
+        u = [x for x in unpack_calls(D) if upos(x)[2] is not None and strip_ids(upos(x)[2])[0] == 'acc']
+        ctx.check(len(u) == 1 and len(cur) == 1 and layout(upos(u[0])[0])[0] == [(0, 1), (1, 1), (2, 2)], 'W1',
+                  '%s: last/more (1), RESERVED (1), length (2) read at each element' % title, key=('W1', title, 'decode'),
+                  site=ctx.site(pf, pf.node))
+        if len(u) != 1 or len(cur) != 1:
             continue
-        names = u[0][1]
-        ln = names[2]
-        ctx.check(names[1] == '_', 'W1', '%s: RESERVED ignored' % title, key=('W1', title, 'reserved'), site=ctx.site(pf, pf.node))
-        st, en = single_def(res, pf, 'start'), single_def(res, pf, 'end')
-        calls = [x for x in calls_in(pf.node) if callee_name(x) == 'parse' and src(x.func.value) == inner]
-        adv = [n for n in walk_no_nested(pf.node) if isinstance(n, ast.AugAssign) and src(n.target) == 'offset']
-        ok = isinstance(st, ast.AST) and src(st) == 'offset + 4' and isinstance(en, ast.AST) and src(en) == 'offset + %s' % ln \
-            and len(calls) == 1 and src(calls[0].args[0]) == 'data[start:end]' and len(adv) == 1 and src(adv[0].value) == ln
+        H = strip_ids(u[0].term)
+        used = set()
+        for t in all_terms(D):
+            used |= indices_in(t, H)
+        ctx.check(1 not in used, 'W1', '%s: RESERVED ignored' % title, key=('W1', title, 'reserved'), site=ctx.site(pf, pf.node))
+        ln = ('index', H, const(2))
+        acc = ('acc', cur[0][1], 0)
+        calls = D.calls_to(qual='message.%s.parse' % inner)
+        ok = len(calls) == 1 and [strip_ids(x) for x in calls[0].args.values()] == [
+            ('slice', d, ('add', (acc, const(4))), ('add', (acc, ln)), NONE)] and cur[0][3] == ln
         ctx.check(ok, 'W2', '%s: the element body is the announced length minus the 4 header octets; the cursor advances by the '
                   'announced length' % title, key=('W2', title, 'slices'), site=ctx.site(pf, pf.node))
-        pk = [p for p in packs(tb) if len(p.args) == 4 and layout(fmt_text(p.args[0]) or '>x')[0] == [(0, 1), (1, 1), (2, 2)]
-              and isinstance(p.args[1], ast.IfExp)]
-        ctx.check(len(pk) == 1, 'W1', '%s: written before each element' % title, key=('W1', title, 'encode'), site=ctx.site(tb, tb.node))
-        if len(pk) == 1:
-            p = pk[0]
-            ctx.check(marker_ok(ctx, tb, p.args[1], lst, more), 'W2', '%s: marker is 0 for the last element and %d otherwise' % (title, more),
-                      key=('W2', title, 'marker'), site=ctx.site(tb, p), detail={'found': src(p.args[1])})
-            ctx.check(isinstance(p.args[2], ast.Constant) and p.args[2].value == 0, 'W1', '%s: RESERVED sent as zero' % title,
-                      key=('W1', title, 'reserved-encode'), site=ctx.site(tb, p))
-            body = src(p.args[3])
-            m_ = re.match(r'^len\((\w+)\) \+ 4$', body)
-            ok = m_ is not None
-            if ok:
-                bd = single_def(res, tb, m_.group(1))
-                ok = isinstance(bd, ast.Call) and callee_name(bd) == 'to_bytes'
-                adds = [src(n.value) for n in walk_no_nested(tb.node) if isinstance(n, ast.AugAssign)]
-                ok = ok and m_.group(1) in adds
-            ctx.check(ok, 'W2', '%s: length = element body + 4, and the body follows the header' % title, key=('W2', title, 'length'),
-                      site=ctx.site(tb, p), detail={'found': body})
-            loops = [n for n in walk_no_nested(tb.node) if isinstance(n, ast.For) and any(p in ast.walk(s) for s in n.body)]
-            ctx.check(len(loops) == 1 and src(loops[0].iter) in ('range(0, len(%s))' % lst, 'range(len(%s))' % lst), 'W2',
-                      '%s: every element is written, in order' % title, key=('W2', title, 'loop'), site=ctx.site(tb, tb.node))
+        r = strip_ids(ctx.sval(tb).ret())
+        seq = ('attr', me, lst)
+        sums = [x for x in (r[1] if r[0] == 'add' else [r]) if x[0] == 'sum']
+        ok = len(sums) == 1 and sums[0][2] == seq and sums[0][3][0] == 'add' and len(sums[0][3][1]) == 2 and \
+            tq.is_call(sums[0][3][1][0], 'struct.pack')
+        ctx.check(ok, 'W1', '%s: written before each element, for every element in order' % title, key=('W1', title, 'encode'),
+                  site=ctx.site(tb, tb.node), detail={'returned': tq.text(r, 500)})
+        if ok:
+            p, body = sums[0][3][1]
+            a = list(tq.args(p).values())
+            ctx.check(fmt_of(a[0]) is not None and layout(fmt_of(a[0]))[0] == [(0, 1), (1, 1), (2, 2)] and len(a) == 4, 'W1',
+                      '%s: header layout on encode' % title, key=('W1', title, 'encode-layout'), site=ctx.site(tb, tb.node))
+            ctx.check(len(a) == 4 and marker_ok(a[1], seq, more), 'W2', '%s: marker is 0 for the last element and %d otherwise' % (title, more),
+                      key=('W2', title, 'marker'), site=ctx.site(tb, tb.node), detail={'found': tq.text(a[1]) if len(a) > 1 else None})
+            ctx.check(len(a) == 4 and a[2] == const(0), 'W1', '%s: RESERVED sent as zero' % title,
+                      key=('W1', title, 'reserved-encode'), site=ctx.site(tb, tb.node))
+            ok2 = len(a) == 4 and a[3] == ('add', (LEN(body), const(4))) and tq.is_call(body, 'message.%s.to_bytes' % inner) and \
+                body[2] == ('elem', seq, 0)
+            ctx.check(ok2, 'W2', '%s: length = element body + 4, and the body follows the header' % title, key=('W2', title, 'length'),
+                      site=ctx.site(tb, tb.node), detail={'found': tq.text(a[3]) if len(a) == 4 else None})
 
 
 def check_header(ctx, esc):
-    prog, res = ctx.prog, ctx.res
+    prog = ctx.prog
     c = prog.cls(M + 'Message')
     pf, tb = c.lookup('parse'), c.lookup('to_bytes')
-    u = unpacks(pf)
-    ctx.require(len(u) == 1, 'anchor vanished: header unpack in Message.parse')
-    fmt, names, off, call, _ = u[0]
+    D, d, U = fixed_unpack(ctx, pf)
+    E = ctx.sval(tb)
+    fmt = upos(U)[0]
+    H = strip_ids(U.term)
     want = [(0, 8), (8, 8), (16, 1), (17, 1), (18, 1), (19, 1), (20, 4), (24, 4)]
-    ctx.check(layout(fmt)[0] == want and off is None, 'W1', 'IKE header (3.1): SPIi 8, SPIr 8, next payload, version, exchange type, '
-              'flags, Message ID 4, length 4 on decode', key=('W1', 'header', 'decode-layout'), site=ctx.site(pf, call))
-    hv = names[0][:-3] if names[0].endswith('[*]') else None
-    ctx.require(hv is not None, 'Message.parse no longer keeps the header tuple in one variable')
-    ctor = [x for x in calls_in(pf.node) if callee_name(x) == 'Message']
+    ctx.check(fmt is not None and layout(fmt)[0] == want, 'W1', 'IKE header (3.1): SPIi 8, SPIr 8, next payload, version, exchange type, '
+              'flags, Message ID 4, length 4 on decode', key=('W1', 'header', 'decode-layout'), site=ctx.site(pf, U.node))
+    ctor = D.calls_to(callee='new message.Message')
     ctx.require(len(ctor) == 1, 'anchor vanished: Message(...) in Message.parse')
-    kw = {k.arg: k.value for k in ctor[0].keywords}
+    kw = {k: strip_ids(v) for k, v in ctor[0].args.items()}
     direct = {'spi_i': 0, 'spi_r': 1, 'exchange_type': 4, 'message_id': 6}
     for k, i in direct.items():
-        ctx.check(src(kw.get(k)) == '%s[%d]' % (hv, i), 'W1', 'IKE header: field %d becomes %s' % (i, k), key=('W1', 'header', 'decode', k),
-                  site=ctx.site(pf, ctor[0]), detail={'found': src(kw.get(k))})
-    fp = [x for x in calls_in(pf.node) if callee_name(x) == '_parse_payloads' and len(x.args) == 2 and hv in src(x.args[1])]
-    ctx.check(len(fp) == 1 and src(fp[0].args[1]) == 'Payload.Type(%s[2])' % hv and src(fp[0].args[0]) == 'data[28:]', 'W1',
-              'IKE header: field 2 is the type of the first payload, which starts at octet 28', key=('W1', 'header', 'first-payload'),
+        ctx.check(kw.get(k) == ('index', H, const(i)), 'W1', 'IKE header: field %d becomes %s' % (i, k), key=('W1', 'header', 'decode', k),
+                  site=ctx.site(pf, ctor[0].node), detail={'found': tq.text(kw.get(k, NONE))})
+    fp = [x for x in D.calls_to(qual='message.Message._parse_payloads') if strip_ids(x.args.get('data', NONE)) == ('slice', d, const(28), NONE, NONE)]
+    ok = len(fp) == 1
+    if ok:
+        a = {k: strip_ids(v) for k, v in fp[0].args.items()}
+        first = a.get('first_payload_type', NONE)
+        ok = a.get('data') == ('slice', d, const(28), NONE, NONE) and first[0] == 'call' and first[1] == 'enum message.Payload.Type' \
+            and list(tq.args(first).values()) == [('index', H, const(2))]
+    ctx.check(ok, 'W1', 'IKE header: field 2 is the type of the first payload, which starts at octet 28', key=('W1', 'header', 'first-payload'),
               site=ctx.site(pf, pf.node))
-    pk = packs(tb)
-    hp = [p for p in pk if fmt_text(p.args[0]) == fmt]
-    ctx.check(len(hp) == 1, 'W1', 'IKE header: the encoder uses the same format', key=('W1', 'header', 'encode-format'), site=ctx.site(tb, tb.node))
-    if len(hp) != 1:
+    hp, rest = first_pack(E.ret())
+    ctx.check(hp is not None and fmt_of(list(tq.args(hp).values())[0]) == fmt, 'W1', 'IKE header: the encoder uses the same format',
+              key=('W1', 'header', 'encode-format'), site=ctx.site(tb, tb.node))
+    if hp is None:
         return
-    ea = hp[0].args[1:]
-    ctx.check(len(ea) == 8 and [src(ea[i]) for i in (0, 1, 4, 6)] == ['self.spi_i', 'self.spi_r', 'self.exchange_type', 'self.message_id'],
+    ea = list(tq.args(hp).values())[1:]
+    me = ('param', 'self')
+    ctx.check(len(ea) == 8 and [strip_ids(ea[i]) for i in (0, 1, 4, 6)] == [('attr', me, x) for x in ('spi_i', 'spi_r', 'exchange_type', 'message_id')],
               'W1', 'IKE header: SPIi, SPIr, exchange type and Message ID are written at their positions', key=('W1', 'header', 'encode-direct'),
-              site=ctx.site(tb, hp[0]), detail={'found': [src(a) for a in ea]})
+              site=ctx.site(tb, tb.node), detail={'found': [tq.text(a) for a in ea]})
     if len(ea) != 8:
         return
-    fpt = single_def(res, tb, src(ea[2]))
-    ctx.check(isinstance(fpt, ast.IfExp) and src(fpt.body).endswith('[0].type') and src(fpt.orelse).endswith('Type.NONE')
-              and src(fpt.test) == src(fpt.body)[:-len('[0].type')], 'W4', 'IKE header: next payload = type of the first payload, NONE when empty',
-              key=('W4', 'header-first'), site=ctx.site(tb, hp[0]))
-    # flags: evaluate encode and decode expressions over all combinations
+    pl = tq.args(rest[0]).get('payloads') if len(rest) == 1 and tq.is_call(rest[0], 'message.Message._payloads_to_bytes') else None
+    okf = pl is not None
+    if okf:
+        # next payload = type of the first payload of the list that is serialised, NONE when it is empty
+        vals = []
+        for empty in (True, False):
+            def leaf(t, empty=empty):
+                if strip_ids(t) == strip_ids(pl):
+                    return () if empty else ('P0',)
+                if strip_ids(t) == strip_ids(('attr', ('index', pl, const(0)), 'type')):
+                    return 'TYPE0'
+                if t[0] == 'global' and t[1].endswith('Payload.Type.NONE'):
+                    return 'NONE'
+                raise tq.NoValue()
+            try:
+                vals.append(tq.teval(ea[2], leaf))
+            except (tq.NoValue, Exception):
+                vals.append(None)
+        okf = vals == ['NONE', 'TYPE0']
+    ctx.check(okf, 'W4', 'IKE header: next payload = type of the first payload that is serialised, NONE when there is none',
+              key=('W4', 'header-first'), site=ctx.site(tb, tb.node), detail={'found': tq.text(ea[2], 300)})
+    # flags: evaluate encode and decode terms over all combinations
     bad = None
-    for r in (False, True):
-        for v in (False, True):
-            for i in (False, True):
-                enc = Interp(prog, tb, {'self.is_response': r, 'self.can_use_higher_version': v, 'self.is_initiator': i}).ev(ea[5])
-                want_b = (0x20 if r else 0) | (0x10 if v else 0) | (0x08 if i else 0)
-                dec = tuple(Interp(prog, pf, {hv: (0, 0, 0, 0, 0, enc | 0xC7 & 0, 0, 0)}).ev(kw[k])
-                            for k in ('is_response', 'can_use_higher_version', 'is_initiator'))
-                if enc != want_b or dec != (r, v, i):
-                    bad = bad or (r, v, i, enc, dec)
-    # stray bits must not confuse the decoder
-    for stray in (0x01, 0x02, 0x04, 0x40, 0x80):
-        dec = tuple(Interp(prog, pf, {hv: (0, 0, 0, 0, 0, stray, 0, 0)}).ev(kw[k]) for k in ('is_response', 'can_use_higher_version', 'is_initiator'))
-        if dec != (False, False, False):
-            bad = bad or ('stray', stray, dec)
+
+    def dec(field, flags=None, ver=None):
+        def leaf(t):
+            t = strip_ids(t)
+            if flags is not None and t == ('index', H, const(5)):
+                return flags
+            if ver is not None and t == ('index', H, const(3)):
+                return ver
+            raise tq.NoValue()
+        return tq.teval(kw[field], leaf)
+    try:
+        for r in (False, True):
+            for v in (False, True):
+                for i in (False, True):
+                    def leaf(t, r=r, v=v, i=i):
+                        t = strip_ids(t)
+                        m_ = {('attr', me, 'is_response'): r, ('attr', me, 'can_use_higher_version'): v, ('attr', me, 'is_initiator'): i}
+                        if t in m_:
+                            return m_[t]
+                        raise tq.NoValue()
+                    enc = tq.teval(ea[5], leaf)
+                    want_b = (0x20 if r else 0) | (0x10 if v else 0) | (0x08 if i else 0)
+                    got = tuple(bool(dec(k, flags=enc)) for k in ('is_response', 'can_use_higher_version', 'is_initiator'))
+                    if enc != want_b or got != (r, v, i):
+                        bad = bad or (r, v, i, enc, got)
+        for stray in (0x01, 0x02, 0x04, 0x40, 0x80):
+            got = tuple(bool(dec(k, flags=stray)) for k in ('is_response', 'can_use_higher_version', 'is_initiator'))
+            if got != (False, False, False):
+                bad = bad or ('stray', stray, got)
+    except (tq.NoValue, KeyError, Exception) as ex:
+        bad = ('cannot evaluate', str(ex)[:80])
     ctx.check(bad is None, 'W2', 'IKE header flags: R = 0x20, V = 0x10, I = 0x08 on encode and decode for all 8 combinations, other bits ignored',
-              key=('W2', 'header-flags'), site=ctx.site(tb, hp[0]), detail={'counterexample': bad})
+              key=('W2', 'header-flags'), site=ctx.site(tb, tb.node), detail={'counterexample': bad})
     bad = None
-    for mj in range(16):
-        for mn in range(16):
-            enc = Interp(prog, tb, {'self.major': mj, 'self.minor': mn}).ev(ea[3])
-            dmj = Interp(prog, pf, {hv: (0, 0, 0, enc, 0, 0, 0, 0)}).ev(kw['major'])
-            dmn = Interp(prog, pf, {hv: (0, 0, 0, enc, 0, 0, 0, 0)}).ev(kw['minor'])
-            if enc != mj * 16 + mn or (dmj, dmn) != (mj, mn):
-                bad = bad or (mj, mn, enc, dmj, dmn)
+    try:
+        for mj in range(16):
+            for mn in range(16):
+                def leaf(t, mj=mj, mn=mn):
+                    t = strip_ids(t)
+                    if t == ('attr', me, 'major'):
+                        return mj
+                    if t == ('attr', me, 'minor'):
+                        return mn
+                    raise tq.NoValue()
+                enc = tq.teval(ea[3], leaf)
+                dmj, dmn = dec('major', ver=enc), dec('minor', ver=enc)
+                if enc != mj * 16 + mn or (dmj, dmn) != (mj, mn):
+                    bad = bad or (mj, mn, enc, dmj, dmn)
+    except (tq.NoValue, KeyError, Exception) as ex:
+        bad = ('cannot evaluate', str(ex)[:80])
     ctx.check(bad is None, 'W2', 'IKE header version: major in the high nibble, minor in the low nibble, both directions (256 cases)',
-              key=('W2', 'header-version'), site=ctx.site(tb, hp[0]), detail={'counterexample': bad})
-    ctx.check(isinstance(ea[7], ast.Constant) and ea[7].value == 28, 'W2', 'IKE header length starts as the header size and is patched below',
-              key=('W2', 'header-len-init'), site=ctx.site(tb, hp[0]))
-    pi = [x for x in calls_in(tb.node) if callee_name(x) == 'pack_into' and src(x.args[0]) == "'>L'"]
-    ctx.check(len(pi) == 1 and [src(a) for a in pi[0].args[1:]] == ['data', '24', 'len(data)'], 'W2',
-              'IKE header length (offset 24) = total length of the message', key=('W2', 'header-length'), site=ctx.site(tb, tb.node))
+              key=('W2', 'header-version'), site=ctx.site(tb, tb.node), detail={'counterexample': bad})
+    buf = E.ret()
+    pi = [x for x in E.calls_to(callee='struct.pack_into') if list(x.args.values())[:1] == [const('>L')]]
+    ok = len(pi) == 1
+    if ok:
+        a = list(pi[0].args.values())
+        ok = len(a) == 4 and a[1] == buf and a[2] == const(24) and same(a[3], LEN(buf)) and not pi[0].pc
+    ctx.check(ok, 'W2', 'IKE header length (offset 24) = total length of the message that is returned', key=('W2', 'header-length'),
+              site=ctx.site(tb, tb.node))
 
 
 def check_generic_header(ctx, esc):
-    prog, res = ctx.prog, ctx.res
+    prog = ctx.prog
     c = prog.cls(M + 'Message')
     pp, pb = c.lookup('_parse_payloads'), c.lookup('_payloads_to_bytes')
-    u = unpacks(pp)
-    ctx.require(len(u) == 1, 'anchor vanished: generic payload header unpack')
-    fmt, names, off, call, _ = u[0]
-    ctx.check(layout(fmt)[0] == [(0, 1), (1, 1), (2, 2)] and src(off) == 'offset' and len(names) == 3, 'W1',
+    D = ctx.sval(pp)
+    d = ('param', pp.call_params()[0])
+    cur = [x for x in cursor_loops(D) if x[2] == const(0)]
+    u = [x for x in unpack_calls(D) if upos(x)[2] is not None and strip_ids(upos(x)[2])[0] == 'acc']
+    ctx.require(len(u) == 1 and len(cur) == 1, 'anchor vanished: generic payload header unpack at the cursor')
+    G = strip_ids(u[0].term)
+    ctx.check(layout(upos(u[0])[0])[0] == [(0, 1), (1, 1), (2, 2)], 'W1',
               'Generic payload header (3.2): next payload, C|RESERVED, length at each payload', key=('W1', 'generic', 'decode'),
-              site=ctx.site(pp, call))
-    nxt, crit, ln = names
-    cd = [n for n in walk_no_nested(pp.node) if isinstance(n, ast.Assign) and src(n.targets[0]) == crit and n.value is not call]
-    ok = len(cd) == 1
+              site=ctx.site(pp, u[0].node))
+    nxt, crit, ln = (('index', G, const(k)) for k in range(3))
+    acc = ('acc', cur[0][1], 0)
+    pc = [x for x in D.calls if x.name == 'parse' and tq.contains(x.recv or NONE, D.expr('cls.type_2_payload'))]
+    ok = len(pc) == 1
+    cflag = None
     if ok:
-        vals = {b: Interp(prog, pp, {crit: b}).ev(cd[0].value) for b in (0x00, 0x80, 0x7F, 0xFF, 0x01)}
-        ok = vals == {0x00: False, 0x80: True, 0x7F: False, 0xFF: True, 0x01: False}
-    ctx.check(ok, 'W2', 'Generic payload header: the critical flag is bit 7 of the second octet (decode)', key=('W2', 'critical-decode'),
-              site=ctx.site(pp, pp.node))
-    st, en = single_def(res, pp, 'start'), single_def(res, pp, 'end')
-    adv = [n for n in walk_no_nested(pp.node) if isinstance(n, ast.AugAssign) and src(n.target) == 'offset']
-    pc = [x for x in calls_in(pp.node) if callee_name(x) == 'parse']
-    ok = isinstance(st, ast.AST) and src(st) == 'offset + 4' and isinstance(en, ast.AST) and src(en) == 'offset + %s' % ln \
-        and len(adv) == 1 and src(adv[0].value) == ln and len(pc) == 1 and [src(a) for a in pc[0].args] == ['data[start:end]', crit]
+        a = [strip_ids(x) for x in pc[0].args.values()]
+        ok = len(a) == 2 and a[0] == ('slice', d, ('add', (acc, const(4))), ('add', (acc, ln)), NONE) and cur[0][3] == ln
+        cflag = a[1] if len(a) == 2 else None
     ctx.check(ok, 'W2', 'Generic payload header: the body is the announced length minus the 4 header octets and is parsed together with '
               'the critical flag; the cursor advances by the announced length', key=('W2', 'generic-slices'), site=ctx.site(pp, pp.node))
-    pk = packs(pb)
-    ctx.check(len(pk) == 1 and layout(fmt_text(pk[0].args[0]))[0] == [(0, 1), (1, 1), (2, 2)], 'W1',
-              'Generic payload header: written before each payload', key=('W1', 'generic', 'encode'), site=ctx.site(pb, pb.node))
-    if len(pk) != 1:
+    okc = cflag is not None
+    if okc:
+        vals = {}
+        for b in (0x00, 0x80, 0x7F, 0xFF, 0x01):
+            def leaf(t, b=b):
+                if strip_ids(t) == crit:
+                    return b
+                raise tq.NoValue()
+            try:
+                vals[b] = bool(tq.teval(cflag, leaf))
+            except (tq.NoValue, Exception):
+                vals[b] = None
+        okc = vals == {0x00: False, 0x80: True, 0x7F: False, 0xFF: True, 0x01: False}
+    ctx.check(okc, 'W2', 'Generic payload header: the critical flag is bit 7 of the second octet (decode)', key=('W2', 'critical-decode'),
+              site=ctx.site(pp, pp.node))
+    B = ctx.sval(pb)
+    pls = ('param', pb.call_params()[0])
+    r = strip_ids(B.ret())
+    sums = [x for x in (r[1] if r[0] == 'add' else [r]) if x[0] == 'sum']
+    ok = len(sums) == 1 and sums[0][2] == pls and sums[0][3][0] == 'add' and len(sums[0][3][1]) == 2 and tq.is_call(sums[0][3][1][0], 'struct.pack')
+    ctx.check(ok, 'W1', 'Generic payload header: written before each payload, for every payload in order', key=('W1', 'generic', 'encode'),
+              site=ctx.site(pb, pb.node), detail={'returned': tq.text(r, 400)})
+    if not ok:
         return
-    a = pk[0].args[1:]
-    pv = None
-    for n in walk_no_nested(pb.node):
-        if isinstance(n, ast.Assign) and isinstance(n.value, ast.Subscript) and src(n.value.value) == 'payloads' \
-                and isinstance(n.targets[0], ast.Name):
-            pv = n.targets[0].id
-    ok = pv is not None
-    if ok:
+    p, body = sums[0][3][1]
+    a = list(tq.args(p).values())
+    el = ('elem', pls, 0)
+    ctx.check(fmt_of(a[0]) is not None and layout(fmt_of(a[0]))[0] == [(0, 1), (1, 1), (2, 2)] and len(a) == 4, 'W1',
+              'Generic payload header: layout on encode', key=('W1', 'generic', 'encode-layout'), site=ctx.site(pb, pb.node))
+    if len(a) != 4:
+        return
+    vals = {}
+    for b in (False, True):
+        def leaf(t, b=b):
+            if strip_ids(t) == ('attr', el, 'critical'):
+                return b
+            raise tq.NoValue()
         try:
-            vals = {b: Interp(prog, pb, {pv + '.critical': b}).ev(a[1]) for b in (False, True)}
-            ok = vals == {False: 0, True: 0x80}
-        except AnalysisError:
-            ok = False
-    ctx.check(ok, 'W2', 'Generic payload header: the encoder places the payload\'s critical flag at bit 7 of the second octet (a payload '
-              'built with critical=True survives serialisation)', key=('W2', 'critical-encode'), site=ctx.site(pb, pk[0]),
-              detail={'found': src(a[1])})
-    body = src(a[2])
-    m_ = re.match(r'^len\((\w+)\) \+ 4$', body)
-    ok = m_ is not None
-    if ok:
-        bd = single_def(res, pb, m_.group(1))
-        adds = [src(n.value) for n in walk_no_nested(pb.node) if isinstance(n, ast.AugAssign)]
-        ok = isinstance(bd, ast.Call) and callee_name(bd) == 'to_bytes' and src(bd.func.value) == pv and m_.group(1) in adds
+            vals[b] = tq.teval(a[2], leaf)
+        except (tq.NoValue, Exception):
+            vals[b] = None
+    ctx.check(vals == {False: 0, True: 0x80}, 'W2', 'Generic payload header: the encoder places the payload\'s critical flag at bit 7 of the '
+              'second octet (a payload built with critical=True survives serialisation)', key=('W2', 'critical-encode'), site=ctx.site(pb, pb.node),
+              detail={'found': tq.text(a[2])})
+    ok = a[3] == ('add', (LEN(body), const(4))) and tq.is_call(body) and (body[1] if isinstance(body[1], str) else '|'.join(body[1])).find('to_bytes') >= 0 \
+        and body[2] == el
     ctx.check(ok, 'W2', 'Generic payload header: length = payload body + 4, and the body follows', key=('W2', 'generic-length'),
-              site=ctx.site(pb, pk[0]), detail={'found': body})
+              site=ctx.site(pb, pb.node), detail={'found': tq.text(a[3])})
 
 
 def check_chain(ctx, esc):
-    prog, res = ctx.prog, ctx.res
+    prog = ctx.prog
     c = prog.cls(M + 'Message')
     pp, pb, tb, pf = c.lookup('_parse_payloads'), c.lookup('_payloads_to_bytes'), c.lookup('to_bytes'), c.lookup('parse')
-    g = esc.add_exception_edges(pp)
-    u = unpacks(pp)[0]
-    nxt, crit, ln = u[1]
+    D = ctx.sval(pp)
+    d = ('param', pp.call_params()[0])
+    u = [x for x in unpack_calls(D) if upos(x)[2] is not None and strip_ids(upos(x)[2])[0] == 'acc']
+    ctx.require(len(u) == 1, 'anchor vanished: generic payload header unpack at the cursor')
+    G = strip_ids(u[0].term)
+    nxt, crit, ln = (('index', G, const(k)) for k in range(3))
+    none = ('global', 'message.Payload.Type.NONE')
     # decode: loop driven by the type announced by the previous header
-    wl = [l for h, l in g.loops if isinstance(l, ast.While)]
-    ok = len(wl) == 1 and src(wl[0].test) == 'payload_type != Payload.Type.NONE'
-    asg = [n for n in walk_no_nested(pp.node) if isinstance(n, ast.Assign) and src(n.targets[0]) == 'payload_type']
-    ok = ok and sorted(src(n.value) for n in asg) == sorted([pp.call_params()[1], nxt])
-    look = [n for n in walk_no_nested(pp.node) if isinstance(n, ast.Subscript) and src(n.value) == 'cls.type_2_payload']
-    ok = ok and len(look) == 1 and src(look[0].slice) == 'payload_type'
+    loops = [(lid, st, it) for lid, (st, it) in D.loops.items() if isinstance(st, ast.While)]
+    ok = len(loops) == 1
+    if ok:
+        lid, st, it = loops[0]
+        ups = {k: strip_ids(v) for k, v in D.loop_updates[lid].items()}
+        inits = D.loop_inits[lid]
+        tvar = [k for k, v in inits.items() if v == ('param', pp.call_params()[1])]
+        ok = len(tvar) == 1
+        if ok:
+            tv = ('acc', tvar[0], 0)
+            ok = strip_ids(it) == ('while', ('not', strip_ids(D.mk_cmp('==', tv, none))))
+            # next type: the announced one; NONE after an SK payload
+            nv = ups[tvar[0]]
+            sk = strip_ids(D.mk_cmp('==', tv, ('global', 'message.Payload.Type.SK')))
+            def leaves(t):
+                if t[0] == 'cond':
+                    return leaves(t[2]) + leaves(t[3])
+                if t[0] == 'tryvar':
+                    return leaves(t[3])
+                return [t]
+            a_, b_ = tq.restrict(nv, lambda t: True if strip_ids(t) == sk else None), tq.restrict(nv, lambda t: False if strip_ids(t) == sk else None)
+            ok = ok and set(leaves(b_)) == {nxt} and set(leaves(a_)) <= {none, nxt}
+            look = [x for x in D.calls if x.name == 'parse' and strip_ids(x.recv or NONE) == ('index', strip_ids(D.expr('cls.type_2_payload')), tv)]
+            ok = ok and len(look) == 1
     ctx.check(ok, 'W4', 'decode: each payload is parsed as the type announced by the previous header (the first by the caller), until NONE',
               key=('W4', 'decode-chain'), site=ctx.site(pp, pp.node))
-    # end-of-data check dominates every normal return
-    conds = [n for n in g.nodes if n.kind == 'cond' and compare_parts(n.ast) and {src(compare_parts(n.ast)[0]), src(compare_parts(n.ast)[2])} == {
-        'offset', 'len(data)'} and compare_parts(n.ast)[1] in (ast.NotEq, ast.Eq)]
-    ok = len(conds) == 1
+    # end-of-data check on every normal return
+    cur = [x for x in cursor_loops(D) if x[2] == const(0)]
+    total = strip_ids(D.end_env.get(cur[0][1])) if len(cur) == 1 and D.end_env is not None else None
+    rets = [(pc, t) for pc, t, _ in D.returns]
+    ok = bool(rets) and len(cur) == 1
+    goal = None
     if ok:
-        cnd = conds[0]
-        passing = 'F' if compare_parts(cnd.ast)[1] is ast.NotEq else 'T'
-        failing = 'T' if passing == 'F' else 'F'
-        fn = [m for lab, m in cnd.succ if lab == failing]
-        ok = bool(fn) and all(isinstance(m.ast, ast.Raise) and 'InvalidSyntax' in src(m.ast) for m in fn)
-        blocked = [(cnd.id, passing, m.id) for lab, m in cnd.succ if lab == passing]
-        ok = ok and g.exit.id not in g.reach([g.entry], blocked_edges=blocked, follow_exc=False)
-    ctx.check(ok, 'W4', 'decode: a payload chain that does not end exactly at the end of the data raises InvalidSyntax (the check '
-              'dominates every normal return)', key=('W4', 'end-of-data'), site=ctx.site(pp, pp.node))
+        endv = [strip_ids(env.get(cur[0][1], NONE)) for _, env in D.exit_envs]
+        goal = D.mk_cmp('==', endv[0], LEN(d)) if endv else None
+        ok = goal is not None and all(tq.entails(pc, goal) is True for pc, _ in rets) and len(D.exit_envs) == len(rets)
+        bad = [(rpc, rt) for rpc, rt, _ in D.raises if goal is not None and tq.entails(rpc, ('not', goal)) is True]
+        ok = ok and bool(bad) and all(tq.is_call(rt, 'new message.InvalidSyntax') for _, rt in bad)
+    ctx.check(ok, 'W4', 'decode: a payload chain that does not end exactly at the end of the data raises InvalidSyntax (every normal return '
+              'passed the check)', key=('W4', 'end-of-data'), site=ctx.site(pp, pp.node))
     # unknown payloads
-    hs = [h for h in g.nodes if h.kind == 'handler' and h.ast.type is not None and src(h.ast.type) == 'KeyError']
-    ok = len(hs) == 1
+    unk = [(rpc, rt) for rpc, rt, _ in D.raises if any(a[0][0] == 'caught' and 'KeyError' in tq.text(a[0]) and a[1] for a in rpc)]
+    ok = len(unk) == 1 and 'UnsupportedCriticalPayload' in tq.text(unk[0][1])
     if ok:
-        ifs = [s for s in hs[0].ast.body if isinstance(s, ast.If)]
-        ok = len(ifs) == 1 and src(ifs[0].test) == crit and isinstance(ifs[0].body[-1], ast.Raise) \
-            and 'UnsupportedCriticalPayload' in src(ifs[0].body[-1]) and not ifs[0].orelse \
-            and not any(isinstance(s, (ast.Raise, ast.Return, ast.Continue, ast.Break)) for s in hs[0].ast.body)
-        adv = [n for n in g.nodes if n.kind == 'stmt' and isinstance(n.ast, ast.AugAssign) and src(n.ast.target) == 'offset']
-        ok = ok and len(adv) == 1 and adv[0].id in g.reach([hs[0]], follow_exc=False)
+        extra = [a for a in strip_ids(unk[0][0]) if a[0][0] not in ('caught',) and tq.contains(a[0], crit)]
+        ok = len(extra) == 1 and extra[0][1] is True
+        # skipped otherwise: the cursor still advances by the announced length (one update for all paths)
+        ok = ok and len(cur) == 1 and cur[0][3] == ln
     ctx.check(ok, 'W4', 'decode: an unknown payload type is rejected as UnsupportedCriticalPayload when critical, else skipped by its length',
               key=('W4', 'unknown-payload'), site=ctx.site(pp, pp.node))
     # SK: inner first type
-    ifs = [n for n in walk_no_nested(pp.node) if isinstance(n, ast.If) and src(n.test) == 'payload_type == Payload.Type.SK']
-    ok = len(ifs) == 1 and [src(s) for s in ifs[0].body] == ['payload.next_payload_type = %s' % nxt, '%s = Payload.Type.NONE' % nxt]
-    ic = [x for x in calls_in(pf.node) if callee_name(x) == '_parse_payloads' and 'next_payload_type' in src(x.args[1])]
-    ok = ok and len(ic) == 1 and src(ic[0].args[1]) == 'payload_sk.next_payload_type'
+    st_ = [(t, v) for t, v, pc, _, _ in D.stores if t[0] == 'attr' and t[2] == 'next_payload_type']
+    ok = len(st_) == 1 and strip_ids(st_[0][1]) == nxt
+    P = ctx.sval(pf)
+    ic = [x for x in P.calls_to(qual='message.Message._parse_payloads') if 'next_payload_type' in tq.text(x.args.get('first_payload_type', NONE), 2000)]
+    ok = ok and len(ic) == 1 and ic[0].args['first_payload_type'][0] == 'attr' and ic[0].args['first_payload_type'][2] == 'next_payload_type' \
+        and tq.find_calls(ic[0].args['first_payload_type'], 'method.pop')
     ctx.check(ok, 'W4', 'decode: the SK payload ends the outer chain and its next-payload field types the first inner payload',
               key=('W4', 'sk-decode'), site=ctx.site(pp, pp.node))
-    skn = [n for n in walk_no_nested(tb.node) if isinstance(n, ast.Assign) and src(n.targets[0]).endswith('.next_payload_type')]
-    ok = len(skn) == 1 and isinstance(skn[0].value, ast.IfExp) and src(skn[0].value.body) == 'self.encrypted_payloads[0].type' \
-        and src(skn[0].value.test) == 'self.encrypted_payloads' and src(skn[0].value.orelse).endswith('Type.NONE')
+    T = ctx.sval(tb)
+    me = ('param', 'self')
+    ep = ('attr', me, 'encrypted_payloads')
+    tg = {strip_ids(t) for t, v, pc, _, _ in T.stores if t[0] == 'attr' and t[2] == 'next_payload_type'}
+    ok = len(tg) == 1 and tq.is_call(list(tg)[0][1], 'message.PayloadSK.generate')
+    skn = [(list(tg)[0], T.stored_value(list(tg)[0]))] if ok else []
+    if ok:
+        vals = []
+        for empty in (True, False):
+            def leaf(t, empty=empty):
+                t = strip_ids(t)
+                if t == ep:
+                    return () if empty else ('P0',)
+                if t == ('attr', ('index', ep, const(0)), 'type'):
+                    return 'TYPE0'
+                if t[0] == 'global' and t[1].endswith('Payload.Type.NONE'):
+                    return 'NONE'
+                raise tq.NoValue()
+            try:
+                vals.append(tq.teval(skn[0][1], leaf))
+            except (tq.NoValue, Exception):
+                vals.append(None)
+        ok = vals == ['NONE', 'TYPE0']
     ctx.check(ok, 'W4', 'encode: the SK payload announces the type of the first encrypted payload (NONE when there is none)',
               key=('W4', 'sk-encode'), site=ctx.site(tb, tb.node))
     # encode chain
-    pk = packs(pb)
-    nv = src(pk[0].args[1]) if pk else None
-    defs = [d for d in res.local_defs(pb).get(nv, []) if isinstance(d, ast.AST)] if nv else []
-    ok = sorted(src(d) for d in defs) == sorted(['payloads[index + 1].type', 'payload.next_payload_type', 'Payload.Type.NONE'])
-    ifs = [n for n in walk_no_nested(pb.node) if isinstance(n, ast.If) and src(n.test) == 'index < len(payloads) - 1']
-    ok = ok and len(ifs) == 1 and src(ifs[0].body[0].value) == 'payloads[index + 1].type' and len(ifs[0].orelse) == 1 \
-        and isinstance(ifs[0].orelse[0], ast.If) and src(ifs[0].orelse[0].test) == 'payload.type == Payload.Type.SK'
-    ctx.check(ok, 'W4', 'encode: each header announces the type of the following payload; the last announces NONE (SK: its inner first type)',
-              key=('W4', 'encode-chain'), site=ctx.site(pb, pb.node))
-    loops = [n for n in walk_no_nested(pb.node) if isinstance(n, ast.For)]
-    ctx.check(len(loops) == 1 and src(loops[0].iter) in ('range(0, len(payloads))', 'range(len(payloads))'), 'W4',
-              'encode: every payload is written, in order', key=('W4', 'encode-loop'), site=ctx.site(pb, pb.node))
+    B = ctx.sval(pb)
+    pls = ('param', pb.call_params()[0])
+    r = strip_ids(B.ret())
+    sums = [x for x in (r[1] if r[0] == 'add' else [r]) if x[0] == 'sum']
+    ok = len(sums) == 1 and sums[0][2] == pls and sums[0][3][0] == 'add' and tq.is_call(sums[0][3][1][0], 'struct.pack')
+    if ok:
+        nx = list(tq.args(sums[0][3][1][0]).values())[1]
+        el = ('elem', pls, 0)
+        res_ = []
+        for n, i, sk in ((3, 0, False), (3, 1, True), (3, 2, False), (3, 2, True), (1, 0, True), (1, 0, False)):
+            def leaf(t, n=n, i=i, sk=sk):
+                t = strip_ids(t)
+                if t == ('idx', pls, 0):
+                    return i
+                if t == pls:
+                    return tuple('P%d' % k for k in range(n))
+                if t[0] == 'attr' and t[2] == 'type' and t[1][0] == 'index' and t[1][1] == pls:
+                    return 'TYPE%d' % tq.teval(t[1][2], leaf)
+                if t == ('attr', el, 'type'):
+                    return 'SK' if sk else 'OTHER'
+                if t == ('attr', el, 'next_payload_type'):
+                    return 'INNER'
+                if t[0] == 'global' and t[1].endswith('Payload.Type.SK'):
+                    return 'SK'
+                if t[0] == 'global' and t[1].endswith('Payload.Type.NONE'):
+                    return 'NONE'
+                raise tq.NoValue()
+            try:
+                res_.append(tq.teval(nx, leaf))
+            except (tq.NoValue, Exception):
+                res_.append(None)
+        ok = res_ == ['TYPE1', 'TYPE2', 'NONE', 'INNER', 'INNER', 'NONE']
+    ctx.check(ok, 'W4', 'encode: each header announces the type of the following payload; the last announces NONE (SK: its inner first type), '
+              'for every payload in order', key=('W4', 'encode-chain'), site=ctx.site(pb, pb.node))
 
 
 def check_dump(ctx):
@@ -762,27 +1146,44 @@ def check_dump(ctx):
             ctx.check(a in read, 'W5', '%s.to_dict shows field `%s`' % (c.name, a), key=('W5', c.name, a), site=ctx.site(td, td.node))
     ctx.floor('W5 decoded fields that must appear in the dump', n, 40)
     mt = ctx.func('message.Message.to_dict')
-    t = src(mt.node)
-    ctx.check('[x.to_dict() for x in self.payloads]' in t and '[x.to_dict() for x in self.encrypted_payloads]' in t, 'W5',
-              'Message.to_dict dumps every clear and every encrypted payload', key=('W5', 'both-lists'), site=ctx.site(mt, mt.node))
+    MT = ctx.sval(mt)
+    me = ('param', 'self')
+    ok = True
+    for lst in ('payloads', 'encrypted_payloads'):
+        seq = ('attr', me, lst)
+        dumps = [x for x in tq.find(strip_ids(MT.ret()), lambda t: t[0] == 'list' and len(t[1]) == 1 and t[1][0][0] == 'each'
+                                    and t[1][0][2] == seq and not t[1][0][3])]
+        ok = ok and any(tq.is_call(x[1][0][4]) and x[1][0][4][2] == ('elem', seq, 0) and 'to_dict' in str(x[1][0][4][1]) for x in dumps)
+    ctx.check(ok, 'W5', 'Message.to_dict dumps every clear and every encrypted payload', key=('W5', 'both-lists'), site=ctx.site(mt, mt.node))
     pt = ctx.func('message.Payload.to_dict')
-    ctx.check("'type', self.type.name" in src(pt.node), 'W5', 'every payload dump names its type', key=('W5', 'payload-type'),
-              site=ctx.site(pt, pt.node))
+    ctx.check(tq.contains(ctx.sval(pt).ret(), ('attr', ('attr', me, 'type'), 'name')), 'W5', 'every payload dump names its type',
+              key=('W5', 'payload-type'), site=ctx.site(pt, pt.node))
     lm = ctx.func('ikesa.IkeSa.log_message')
-    ctx.check('message.to_dict()' in src(lm.node) and 'json.dumps' in src(lm.node), 'W5', 'log_message writes the structured dump',
-              key=('W5', 'log-message'), site=ctx.site(lm, lm.node))
+    LM = ctx.sval(lm)
+    msgp = ('param', lm.call_params()[0])
+    dumps = [c for c in LM.calls if c.callee == 'json.dumps']
+    ctx.check(len(dumps) >= 1 and any(tq.is_call(x) and 'to_dict' in str(x[1]) and x[2] == msgp for c in dumps for x in tq.find_calls(c.term)),
+              'W5', 'log_message writes the structured dump', key=('W5', 'log-message'), site=ctx.site(lm, lm.node))
     sites = {}
     for fi in prog.cls('ikesa.IkeSa').methods.values():
-        for x in calls_in(fi.node):
-            if callee_name(x) == 'log_message':
-                sites.setdefault(fi.name, []).append(x)
+        if not isinstance(fi.node, ast.FunctionDef):
+            continue
+        for x in ctx.sval(fi).calls_to(qual='ikesa.IkeSa.log_message'):
+            sites.setdefault(fi.name, []).append(x)
     ctx.check(set(sites) == {'process_message', '_process_request', '_send_request'}, 'W5',
               'every received message (process_message) and every sent message (_process_request, _send_request) is logged',
               key=('W5', 'log-sites'), detail={'found': sorted(sites)})
     pm = ctx.func('ikesa.IkeSa.process_message')
-    first = [s for s in pm.node.body if not (isinstance(s, ast.Expr) and isinstance(s.value, ast.Constant))][:2]
-    ctx.check(len(first) == 2 and 'Message.parse(' in src(first[0]) and 'self.log_message(' in src(first[1]), 'W5',
-              'a received message is logged right after it was parsed, before any check can drop it', key=('W5', 'log-received-first'),
+    PM = ctx.sval(pm)
+    parse = PM.calls_to(qual='message.Message.parse')
+    logs = PM.calls_to(qual='ikesa.IkeSa.log_message')
+    ok = len(parse) == 1 and len(logs) >= 1 and not logs[0].pc and logs[0].seq > parse[0].seq and \
+        list(logs[0].args.values())[0] == parse[0].term
+    if ok:
+        between = [c for c in PM.calls if parse[0].seq < c.seq < logs[0].seq and c.quals and c is not logs[0]]
+        early = [s_ for s_ in PM.seq_of.values() if s_ < logs[0].seq]
+        ok = not between and not early
+    ctx.check(ok, 'W5', 'a received message is logged right after it was parsed, before any check can drop it', key=('W5', 'log-received-first'),
               site=ctx.site(pm, pm.node))
 
 
@@ -797,6 +1198,6 @@ MANIFEST = {
              'the three log sites.',
     'note': 'Trusted: transcription of the RFC/IANA tables. Declined: round-trip and idempotence over all byte strings; comparison '
             'with an independent encoder on concrete messages.',
-    'technique': 'sibling codec comparison against an RFC layout table + def-use flow + finite evaluation of bit arithmetic',
+    'technique': 'sibling codec comparison against an RFC layout table over value terms (which decoded field reaches which attribute, what the encoder writes where) + finite evaluation of bit arithmetic',
     'design_ref': 'DESIGN.md 3/C05',
 }
